@@ -168,7 +168,17 @@ def harness(zx, args, sc, timeout=1800):
         log("harness: " + p.stdout.strip()[-300:])
         return p.stdout
     if p.returncode != 0:
-        raise Inconclusive("harness %s failed rc=%d: %s" % (args[0], p.returncode, p.stdout[-2000:]))
+        crash = [ln for ln in p.stdout.splitlines() if ln.startswith(("fatal error:", "panic:", "unexpected fault address", "runtime: out of memory"))]
+        inlib = "/zapx/" in p.stdout or (REPO + "/") in p.stdout or "zapx/v16." in p.stdout
+        if crash and inlib and "-out" in args:
+            # the code under test brought the process down (unrecoverable runtime error inside the library):
+            # the trace ends with an abort record, which no action of the specification explains
+            tp = args[args.index("-out") + 1]
+            with open(tp, "a") as fh:
+                fh.write(json.dumps({"ev": "abort", "op": "crash", "why": crash[0][:300]}) + "\n")
+            log("harness: the library crashed the process: " + crash[0][:200])
+            return p.stdout
+        raise Inconclusive("harness %s failed rc=%d: %s ... %s" % (args[0], p.returncode, p.stdout[:600], p.stdout[-800:]))
     return p.stdout
 
 
